@@ -123,6 +123,12 @@ def violation(cspec, X):
         # feasible cells of a checkerboard of period 2*p centred on zc (zc lies in a feasible cell)
         p = cspec["p"]
         c = -np.prod(np.cos(np.pi * V / (2 * p)), axis=1) - cspec.get("t", 0.0)
+    elif k == "gridhalf":
+        # mesh-adversarial region: exactly the nodes of the initial search mesh (step h in normalised units) that lie beyond
+        # z_0 > t are infeasible, everything else is feasible. A point is judged before/after snapping very differently.
+        h = cspec["h"]
+        on_grid = np.all(np.abs(Z / h - np.round(Z / h)) < 0.02, axis=1)
+        c = np.where(on_grid & (Z[:, 0] > cspec["t"]), 1.0, -1.0)
     else:
         raise ValueError(k)
     return np.asarray(c, dtype=float)
